@@ -157,6 +157,43 @@ func init() {
 		w.Line("/-- serveHTTP's write-out aborts the connection when copying the response body failed -/")
 		w.Line("def muxAbortsOnCopyError : Bool := %s", Bool(aborts))
 
+		// ---- int64 overflow freedom of both FetchPayloads: the bodies contain no arithmetic at all (only comparisons,
+		// conversions between 64-bit integer types, `make`, slicing and the read calls), so no `limit + 1` can wrap
+		arith := func(fd *ast.FuncDecl) []string {
+			var out []string
+			ast.Inspect(fd.Body, func(x ast.Node) bool {
+				switch y := x.(type) {
+				case *ast.BinaryExpr:
+					switch y.Op {
+					case token.ADD, token.SUB, token.MUL, token.QUO, token.REM, token.SHL, token.SHR, token.AND, token.OR, token.XOR, token.AND_NOT:
+						out = append(out, r.Src(y))
+					}
+				case *ast.UnaryExpr:
+					if y.Op == token.SUB || y.Op == token.XOR {
+						out = append(out, r.Src(y))
+					}
+				case *ast.IncDecStmt:
+					out = append(out, r.Src(y))
+				case *ast.AssignStmt:
+					if y.Tok != token.ASSIGN && y.Tok != token.DEFINE {
+						out = append(out, r.Src(y))
+					}
+				}
+				return true
+			})
+			return out
+		}
+		fq, err := r.Func("pkg/protocols/httpprot/request.go", "Request", "FetchPayload")
+		if err != nil {
+			return err
+		}
+		fp, err := r.Func("pkg/protocols/httpprot/response.go", "Response", "FetchPayload")
+		if err != nil {
+			return err
+		}
+		w.Line("/-- every arithmetic / bit operation, `++`/`--` and op-assignment in the bodies of Request.FetchPayload and Response.FetchPayload -/")
+		w.Line("def fetchArithmetic : List String := %s", StrList(append(arith(fq), arith(fp)...)))
+
 		// ---- update histories: a path's limit is written once, by newMuxPath, from the path's own spec value; reload
 		// publishes an instance that carries the new spec
 		mf, err := r.File("pkg/object/httpserver/mux.go")
